@@ -336,7 +336,7 @@ def run_one(mm, nodes, objs, text):
             return {"other": type(e).__name__, "msg": str(e)[:200]}
         return None
 
-    r = with_timeout(do_parse)
+    r = with_timeout(do_parse, 5)
     if r is not None:
         d["parse"] = r
         tree = None
@@ -372,7 +372,7 @@ def run_one(mm, nodes, objs, text):
     def do_load():
         return dump_model(mm.model_from_str(text))
 
-    o = with_timeout(lambda: outcome(do_load))
+    o = with_timeout(lambda: outcome(do_load), 5)
     if "err" in o:
         e = o["err"]
         o = {"err": [e["cls"], e["line"], e["col"]]}
@@ -482,6 +482,8 @@ def text_values(dump, textual):
 
 def pair_failure(x, y, textual):
     """property failure for an accepted text x and a variant y of its literal-matched characters, or None"""
+    if y["load"].get("other") == "Timeout":
+        return None  # wall-clock limit hit (machine load): undecided, counted in the evidence
     if "ok" not in y["load"]:
         return f"variant {y['text']!r} of accepted {x['text']!r} is rejected: {str(y['load'])[:160]}"
     r = struct_diff(x["load"]["ok"], y["load"]["ok"])
@@ -521,13 +523,13 @@ class Prop(Check):
         "Peg.run_congr",
     ]
     DRIVER = "Drivers/Case.lean"
-    QUICK_CASES = 260
+    QUICK_CASES = 400
     THOROUGH_CASES = 7000
-    CASE_TIMEOUT = 40
+    CASE_TIMEOUT = 90
     RULE = ("generated grammars (random: common/abstract/match rules, all operators, separators, eolterm, predicates, "
             "suppression, rule modifiers, Comment rule, mixed-case keywords, regex literals with letters; targeted: "
             "keyword/regex/separator/ID templates; definitions + references through ID) compiled with ignore_case=True x "
-            "autokwd / skipws / ws / memoization options x derived and mutated texts x up to 4 (quick) case variants of "
+            "autokwd / skipws / ws / memoization options x derived and mutated texts x up to 3 (quick) / 6 (thorough) case variants of "
             "the literal-matched characters + 1 variant of arbitrary characters; non-trivial = an accepted text with at "
             "least one variant differing in a character matched by a string or regex literal of the grammar")
     MODELLED = ("hand-modelled: StrMatch._parse with ignore_case, Terminal.value, the flag choice of visit_str_match / "
@@ -558,7 +560,7 @@ class Prop(Check):
                 cfg["memoization"] = True
             if stream == "random":
                 g = relit(G.GrammarGen(r, links=False).grammar(), r)
-                case = {"grammar": G.render_grammar(g), "cfg": cfg, "texts": sentences20(g, r, 3, 1),
+                case = {"grammar": G.render_grammar(g), "cfg": cfg, "texts": sentences20(g, r, 2, 1),
                         "lits": grammar_lits(g), "textual": textual_attrs(g)}
             elif stream == "simple":
                 gtext, texts, lits, textual = simple_grammar(r)
@@ -568,7 +570,7 @@ class Prop(Check):
                 case = {"grammar": gtext, "cfg": cfg, "texts": texts, "lits": lits, "textual": textual}
             case["stream"] = stream
             case["vseed"] = r.next()
-            case["nvar"] = 4 if tier == "quick" else 6
+            case["nvar"] = 3 if tier == "quick" else 6
             yield case
 
     # ---- implementation -------------------------------------------------------
@@ -593,9 +595,17 @@ class Prop(Check):
         textual = case.get("textual") or {}
         base = base_objs()
         bool_idx = [i for i, e in enumerate(objs) if e is base[1]]
+        res["bool_nodes"] = bool_idx
+        def timed_out(d):
+            return "Timeout" in (d["parse"].get("other"), d["load"].get("other"))
+
         for t in case["texts"]:
             x = run_one(mm, nodes, objs, t)
             grp = {"x": x, "ys": []}
+            if timed_out(x):  # machine load (or a hanging implementation): do not pile up further waits
+                res["groups"].append(grp)
+                res["aborted"] = True
+                break
             ys = []
             if "ok" in x["load"] and x.get("spans"):
                 ys = [(y, False) for y in variants_of(t, x["spans"], rng.fork("v"), case.get("nvar", 4))]
@@ -613,6 +623,9 @@ class Prop(Check):
                     inside = all(any(a <= i < b for a, b in x["spans"]) for i in range(len(t)) if t[i] != y[i])
                     d["wild"] = not inside
                 grp["ys"].append(d)
+                if timed_out(d):
+                    res["aborted"] = True
+                    break
             # classifier input for the BOOL finding: the same pairs with BOOL recompiled case-insensitively
             fails = [d for d in grp["ys"] if not d["wild"] and "ok" in x["load"] and pair_failure(x, d, textual)]
             if fails and bool_idx:
@@ -666,7 +679,9 @@ class Prop(Check):
             return model.get("ok") == real["ok"]
         if "nomatch" in real:
             return model.get("nomatch") == real["nomatch"]
-        if real.get("other") in ("RecursionError", "Timeout", "MemoryError"):
+        if real.get("other") == "Timeout":
+            return True  # wall-clock limit hit (machine load): not comparable, counted in the evidence
+        if real.get("other") in ("RecursionError", "MemoryError"):
             return model.get("err") == "fuel"
         return False
 
@@ -688,6 +703,14 @@ class Prop(Check):
                     if row != d["rows"][i]:
                         return (f"text {d['text']!r}: StrMatch {obs['toks'][i]} rows differ: real {d['rows'][i]} vs "
                                 f"model {row}")
+            # the stated assumption RxFoldInv, on the real `re` objects: every regex token except the known
+            # case-sensitive base type BOOL has the same row on a text and on each of its case variants
+            if case["cfg"].get("ignore_case"):
+                for d in grp["ys"]:
+                    for i, t in enumerate(obs["toks"]):
+                        if t["k"] == "re" and i not in obs["bool_nodes"] and d["rows"][i] != grp["x"]["rows"][i]:
+                            return (f"assumption RxFoldInv fails for regex token {i} ({obs['nodes'][i].get('rule')!r}): "
+                                    f"rows differ on {grp['x']['text']!r} / {d['text']!r}")
             # what the visitor built vs compileLit (flags and kinds; spelling up to case)
             if case.get("lits") is not None and "lits" in case:
                 exp = {(c["k"], c["v"].lower(), c["ic"]) for c in o["compiled"]}
@@ -698,6 +721,8 @@ class Prop(Check):
             hyp = o["hyp"]
             for j, d in enumerate(grp["ys"]):
                 if hyp["allic"] and hyp["wsneutral"] and hyp["foldeq"][j] and hyp["rxeq"][j]:
+                    if "Timeout" in (d["parse"].get("other"), grp["x"]["parse"].get("other")):
+                        continue
                     if d["parse"] != grp["x"]["parse"]:
                         return (f"hypotheses of C20_partial hold for {grp['x']['text']!r} / {d['text']!r} but the real "
                                 f"outcomes differ: {str(grp['x']['parse'])[:200]} vs {str(d['parse'])[:200]}")
@@ -775,6 +800,8 @@ class Prop(Check):
                         hyp_all += 1
                         hyp_ok += bool(h["allic"] and h["wsneutral"] and a and b)
         return {"texts": len(groups), "accepted_texts": len(acc), "literal_variants": nv,
+                "timeouts": sum(1 for g in groups for d in [g["x"]] + g["ys"]
+                                if "Timeout" in (d["parse"].get("other"), d["load"].get("other"))),
                 "wild_variants": sum(1 for g in groups for d in g["ys"] if d["wild"]),
                 "variants_accepted": sum(1 for g in acc for d in g["ys"] if not d["wild"] and "ok" in d["load"]),
                 "pairs_with_theorem_hypotheses": hyp_ok, "pairs": hyp_all,
